@@ -39,7 +39,7 @@ func kfBucket(args []KeyBuilderStage) (KeyBuilderStage, error) {
 		}
 
 		bucket := (val / bucketSize) * bucketSize
-		if val < 0 {
+		if val < 0 && val%bucketSize != 0 {
 			bucket -= bucketSize
 		}
 
@@ -68,7 +68,7 @@ func kfBucketRange(args []KeyBuilderStage) (KeyBuilderStage, error) {
 
 		var start, end int64
 		start = (val / bucketSize) * bucketSize
-		if val < 0 {
+		if val < 0 && val%bucketSize != 0 {
 			start -= bucketSize
 		}
 		end = start + (bucketSize - 1)
